@@ -73,7 +73,8 @@ def _version_of(vc, name):
 
 @harness('Q1', targets='kopf._core.reactor.queueing.worker', props=['C01', 'C07'],
          clauses=['idle_exit_leaves_no_event', 'got_item_processed_next', 'order_invariant', 'frame_streams',
-                  'consistency_bookkeeping', 'no_retire_before_consistency_deadline', 'processor_gets_current_expectation'],
+                  'consistency_bookkeeping', 'no_retire_before_consistency_deadline', 'processor_gets_current_expectation',
+                  'pressure_tells_pending_events'],
          canaries=['canary.never_idle_exit', 'canary.queue_empty_when_timeout_fires'],
          native_replays={'idle_exit_leaves_no_event': 'drivers/q1_idle_race.py', 'order_invariant': 'drivers/q1_idle_race.py',
                          'got_item_processed_next': 'drivers/q1_idle_race.py'},
@@ -143,7 +144,9 @@ def Q1(vc):
             G.delivered = G.delivered + new
         G.susp_since_empty_check = True
         clock.advance(0)
-        pressure.havoc()
+        # rely (watcher contract Q5.pressure_follows_put): every put is followed at once by pressure.set();
+        # nobody but this worker ever clears the pressure
+        pressure.state = Or(pressure.state, vc_len(new) > 0)
         return None
 
     class Queue:
@@ -160,6 +163,8 @@ def Q1(vc):
 
     backlog = Queue()
     pressure = StubEvent('pressure')
+    vc.assume(Implies(vc_len(G.content) > 0, pressure.is_set()),
+              'precondition (watcher contract Q5.pressure_follows_put): whatever is queued at spawn was followed by pressure.set()')
     streams = Streams(vc, {key: queueing.Stream(backlog=backlog, pressure=pressure)})
     streams.log.clear()
 
@@ -204,6 +209,10 @@ def Q1(vc):
         # Q2: the event handed over is the one just taken, and nothing is being processed meanwhile
         vc.ensure('got_item_processed_next', raw_event is G.event and G.inflight is not None and not G.processor_running)
         vc.ensure('got_item_processed_next', stream_pressure is pressure)
+        # the pressure the processor sees says exactly whether more events are pending: set -> its sleeps are
+        # skipped in favour of the newer event (never with nothing pending: the handling would be skipped for good,
+        # C03); clear -> it may sleep, and only a NEW event interrupts that
+        vc.ensure('pressure_tells_pending_events', Iff(pressure.is_set(), vc_len(G.content) > 0))
         # Q4: the processor sees the current expectation
         ver = raw_event['object']['metadata']['resourceVersion']
         matches = And(current.ev is not None, Eq(ver, current.ev) if ver is not None and current.ev is not None else False)
@@ -252,7 +261,8 @@ def Q1(vc):
     def invariant(loc):
         ev, ct = loc.get('expected_version'), loc.get('consistency_time')
         inv = And(order_ok(), key in streams and streams[key].backlog is backlog, (ev is None) == (ct is None),
-                  G.inflight is None, not G.deleted, loc.get('shouldstop') is False)
+                  G.inflight is None, not G.deleted, loc.get('shouldstop') is False,
+                  Implies(vc_len(G.content) > 0, pressure.is_set()))      # pending events keep the pressure up
         if not state.first:
             # ---- back edge: the bookkeeping of this iteration (Q4)
             if G.exit_kind is None and getattr(G, 'event', None) is not None and hasattr(G, 'returned_version'):
@@ -315,7 +325,8 @@ def Q1(vc):
 @harness('Q5', targets=['kopf._core.reactor.queueing.watcher', 'kopf._core.reactor.queueing.get_uid'],
          props=['C01', 'C20'],
          clauses=['one_put_per_event', 'no_put_for_bookmarks', 'put_into_live_stream', 'create_path_insert_put_spawn',
-                  'spawn_only_when_absent', 'keyed_by_uid', 'worker_failure_escalates', 'drains_and_closes_on_exit'],
+                  'spawn_only_when_absent', 'keyed_by_uid', 'worker_failure_escalates', 'drains_and_closes_on_exit',
+                  'pressure_follows_put'],
          canaries=['canary.never_spawns', 'canary.always_puts'],
          trusted=['asyncio.Queue.put on an unbounded queue does not suspend', 'aiotasks.Scheduler.spawn by contract S2 (may suspend; starts the coroutine later)',
                   'watching.infinite_watch yields events/bookmarks (W2)', 'asyncio.create_task/shield'])
@@ -344,6 +355,7 @@ def Q5(vc):
     state.spawns = []
     state.events = []
     state.failed_worker = False
+    state.unsignalled = []     # streams that got an item put and no pressure.set() check yet
 
     class Queue:
         def __init__(self, owner=None):
@@ -353,6 +365,7 @@ def Q5(vc):
             live = state.stream is not None and state.stream.backlog is self and state.present is not False
             vc.ensure('put_into_live_stream', And(live, state.present if state.present is not None else False))
             state.puts.append((self, item))
+            state.unsignalled.append(state.stream)
             vc.emit('put', item)
 
     class Event(StubEvent):
@@ -385,7 +398,16 @@ def Q5(vc):
 
     streams = SymStreams()
 
+    def signalled():
+        # every put is accompanied by pressure.set() on the same stream within the same atomic segment: the worker's
+        # sleeps (batch window, consistency wait) are interrupted by a new event, and its `pressure set <=> events
+        # pending` bookkeeping (Q1.pressure_tells_pending_events) relies on it
+        for st_ in state.unsignalled:
+            vc.ensure('pressure_follows_put', st_ is not None and st_.pressure.is_set())
+        state.unsignalled.clear()
+
     def on_suspend(site):
+        signalled()
         # the worker of this key may retire here (it deletes its own entry); nobody else inserts
         if state.present is not None and state.present is not False and state.stream is not None:
             still = vc.bool('worker still alive')
@@ -398,6 +420,8 @@ def Q5(vc):
             err = ValueError('worker failed')
             state.worker_exc = err
             state.handler(err)                   # the scheduler calls the watcher's exception handler
+            # Q8: the first failure of a worker cancels the watcher at once (that is the only way to wake it up)
+            vc.ensure('worker_failure_escalates', state.task.cancelled_count >= 1)
             return asyncio.CancelledError() if state.task.cancelled_count else None
         return None
 
@@ -484,7 +508,7 @@ def Q5(vc):
         else:
             state.present = False
             state.stream = None
-        state.puts.clear(); state.sets.clear(); state.spawns.clear(); state.events.clear()
+        state.puts.clear(); state.sets.clear(); state.spawns.clear(); state.events.clear(); state.unsignalled.clear()
         state.was_present = state.present
         return {'streams': streams}
     def invariant(loc):
@@ -493,6 +517,7 @@ def Q5(vc):
     def at_backedge(loc):
         # ---- back edge: what this iteration did for its event
         (kind, ev), = state.events[-1:]
+        signalled()
         vc.canary('canary.always_puts', len(state.puts) == 1)
         if kind in (1, 2):
             vc.ensure('no_put_for_bookmarks', not state.puts and not state.spawns and not state.sets)
@@ -550,7 +575,7 @@ def Q5(vc):
 # ================================================================================================ scheduler
 @harness('S1', targets=['kopf._cogs.aiokits.aiotasks.Scheduler._task_spawner', 'kopf._cogs.aiokits.aiotasks.Scheduler._can_spawn'],
          props=['C01'],
-         clauses=['limit_respected', 'spawns_while_capacity', 'job_becomes_owned_task', 'fifo'],
+         clauses=['limit_respected', 'spawns_while_capacity', 'job_becomes_owned_task', 'fifo', 'blocks_until_it_can_spawn'],
          canaries=['canary.never_spawns'],
          trusted=['asyncio.Condition.wait_for(pred) returns only when pred() holds, holding the lock',
                   'asyncio.Queue.get_nowait pops the head or raises QueueEmpty', 'asyncio.create_task'])
@@ -614,6 +639,7 @@ def S1(vc):
             await suspend('condition.acquire'); return self
         async def __aexit__(self, *a): return False
         async def wait_for(self, pred):
+            st.waited = True
             await suspend('condition.wait_for')
             vc.assume(pred(), 'Condition.wait_for returns when the predicate holds')
             return True
@@ -639,6 +665,15 @@ def S1(vc):
         st.created.clear(); st.popped.clear()
         return {}
 
+    def outer_havoc(loc):
+        st.waited = False
+        return havoc(loc)
+
+    def at_outer_back(loc):
+        # every round of the spawner blocks in Condition.wait_for(can-spawn): acquiring a free asyncio lock does not
+        # yield to the event loop, so a round without that wait would be a busy loop freezing the whole operator
+        vc.ensure('blocks_until_it_can_spawn', st.waited)
+
     def on_inner_exit(loc):
         # the spawner is about to wait again: only when nothing is pending or the pool is full
         vc.ensure('spawns_while_capacity', Or(st.pending == 0, False if limit is None else st.running >= limit))
@@ -653,7 +688,7 @@ def S1(vc):
         havoc(loc); st.added = 0
         return {}
     ld = vc.load('kopf._cogs.aiokits.aiotasks', 'Scheduler._task_spawner', stubs={'asyncio.create_task': create_task},
-                 loops={1: LoopSpec('while True', invariant=inv, havoc=havoc),
+                 loops={1: LoopSpec('while True', invariant=inv, havoc=outer_havoc, at_backedge=at_outer_back),
                         2: LoopSpec('while self._can_spawn()', invariant=inv, havoc=inner_havoc, at_backedge=at_inner_back,
                                     on_exit=on_inner_exit)})
     vc.drive(ld.fn(me), on_suspend=lambda site: havoc_shared())
@@ -820,3 +855,117 @@ def Q9(vc):
         r = pred()
         vc.ensure('waits_for_depletion_up_to_exit_timeout', Iff(r, Or(Not(streams._truth), sched_empty)))
     return ('done', len(waits))
+
+
+# ================================================================================================ get_uid
+def _uid_piece_ok(p):
+    if isinstance(p, str):
+        return not p.startswith('/') and not p.endswith('/') and '//' not in p and p != ''
+    return And(Not(p.startswith('/')), Not(p.endswith('/')), Not(p.contains('//')), p != '')
+
+
+def _uid_spec_key(pieces):
+    """the specification function of the fallback key: kind//apiVersion//name//namespace//creationTimestamp"""
+    out = pieces[0]
+    for p in pieces[1:]:
+        out = out + '//' + p
+    return out
+
+
+@harness('Q6u', targets='kopf._core.reactor.queueing.get_uid', props=['C01'],
+         clauses=['uid_when_present', 'fallback_total', 'fallback_key_is_the_spec_key', 'lemma_split', 'lemma_spec_key_injective',
+                  'lemma_pieces_identify_fields'],
+         canaries=['canary.always_same_key', 'canary.lemma_keys_always_equal'],
+         assumes=['identifying fields of uid-less objects (kind, apiVersion, name, namespace, creationTimestamp) neither start nor end '
+                  "with '/', contain no '//' and are not the placeholder '-' (Kubernetes names, kinds, versions and timestamps never are)"],
+         trusted=[])
+def Q6u(vc):
+    """
+    queueing.get_uid -- the key of the per-object stream (C01 "per-object": events of one object go to one worker,
+    events of different objects never share a stream).  Function against a spec function:
+      uid_when_present              metadata.uid, when there is one, IS the key (whatever else the object carries);
+      fallback_total                without a uid (v1/ComponentStatus and the like) a key is still formed, no exception,
+                                    with any of the five identifying fields absent / None / '';
+      fallback_key_is_the_spec_key  that key == spec(kind, apiVersion, name, namespace, creationTimestamp)
+                                    := p1//p2//p3//p4//p5 with p_i = the field, or '-' when it is missing;
+      lemma_split, lemma_spec_key_injective   (one generic path, over the contracts only) for pieces without '//' that neither
+                                    start nor end with '/':  spec(p) == spec(q)  <=>  p_i == q_i for all i -- by four
+                                    applications of  a//r == b//t => a == b and r == t  (each discharged separately: word
+                                    equations, cvc5) -- so two uid-less objects share a key iff their five fields agree;
+      lemma_pieces_identify_fields  p_i == q_i  <=>  the fields agree (missing = missing), since no field is '-'.
+    """
+    sc = vc.nondet(3, 'scenario: uid present / fallback key / lemmas')
+    ABSENT = object()
+    NAMES = (('kind', 'o'), ('apiVersion', 'o'), ('name', 'm'), ('namespace', 'm'), ('creationTimestamp', 'm'))
+
+    def event(with_uid):
+        obj, meta, pieces = {}, {}, []
+        for name, where in NAMES:
+            k = 3 * vc.nondet(2, f'{name}: absent / string') if with_uid else vc.nondet(4, f'{name}: absent / None / empty / string')
+            tgt = obj if where == 'o' else meta
+            if k == 0:
+                pieces.append('-')
+            elif k == 1:
+                tgt[name] = None
+                pieces.append('-')
+            elif k == 2:
+                tgt[name] = ''
+                pieces.append('-')
+            else:
+                f = vc.str(name)
+                vc.assume(And(_uid_piece_ok(f), f != '-'), 'identifying fields (see assumes)')
+                tgt[name] = f
+                pieces.append(f)
+        uid = None
+        if with_uid:
+            uid = vc.str('uid')
+            meta['uid'] = uid
+        obj['metadata'] = meta
+        return {'type': 'MODIFIED', 'object': obj}, pieces, uid
+
+    if sc == 0:
+        ld = vc.load('kopf._core.reactor.queueing', 'get_uid')
+        ev, _, uid = event(True)
+        got = ld.fn(ev)
+        vc.ensure('uid_when_present', Eq(got, uid))
+        vc.canary('canary.always_same_key', Eq(got, 'x'))
+        vc.canary('canary.lemma_keys_always_equal', False)
+        return ('uid',)
+    if sc == 1:
+        ld = vc.load('kopf._core.reactor.queueing', 'get_uid')
+        ev, pieces, _ = event(False)
+        try:
+            k = ld.fn(ev)
+        except Exception:
+            vc.ensure('fallback_total', False)
+            raise
+        vc.ensure('fallback_total', isinstance(k, (str, SStr)))
+        vc.ensure('fallback_key_is_the_spec_key', Eq(k, _uid_spec_key(pieces)))
+        vc.canary('canary.always_same_key', Eq(k, '-//-//-//-//-'))
+        vc.canary('canary.lemma_keys_always_equal', False)
+        return ('fallback',)
+    # ---- lemmas over the spec function (no code involved)
+    a, b_, r, t = vc.str('a'), vc.str('b'), vc.str('r'), vc.str('t')
+    vc.assume(And(_uid_piece_ok(a), _uid_piece_ok(b_)), 'pieces')
+    # the split lemma, generic in all four strings (valid => every instance of it is valid)
+    vc.ensure('lemma_split', Implies(Eq(a + '//' + r, b_ + '//' + t), And(Eq(a, b_), Eq(r, t))), z3_ms=300)
+    P = [vc.str(f'p{i}') for i in range(5)]
+    Q = [vc.str(f'q{i}') for i in range(5)]
+    for x in P + Q:
+        vc.assume(_uid_piece_ok(x), 'pieces: fields satisfying the stated assumption, or the placeholder')
+    S = [_uid_spec_key(P[i:]) for i in range(5)]
+    T = [_uid_spec_key(Q[i:]) for i in range(5)]
+    # its four instances  a := p_i, b := q_i, r := p_{i+1}//..//p_5, t := q_{i+1}//..//q_5  (substitution into the proved lemma)
+    steps = [Implies(Eq(S[i], T[i]), And(Eq(P[i], Q[i]), Eq(S[i + 1], T[i + 1]))) for i in range(4)]
+    all_eq = And(*[Eq(x, y) for x, y in zip(P, Q)])
+    vc.ensure('lemma_spec_key_injective', Implies(And(*steps), Iff(Eq(S[0], T[0]), all_eq)), z3_ms=300)
+    # pieces against fields: p = '-' if the field is missing else the field (which is not '-')
+    miss_a, miss_b = vc.bool('a.missing'), vc.bool('b.missing')
+    fa, fb = vc.str('a.field'), vc.str('b.field')
+    vc.assume(And(fa != '-', fb != '-'), 'no field is the placeholder')
+    pa, pb = If(miss_a, '-', fa), If(miss_b, '-', fb)
+    agree = Or(And(miss_a, miss_b), And(Not(miss_a), Not(miss_b), Eq(fa, fb)))
+    vc.ensure('lemma_pieces_identify_fields', Iff(Eq(pa, pb), agree))
+    vc.canary('canary.always_same_key', False)
+    vc.canary('canary.lemma_keys_always_equal', Eq(S[0], T[0]))
+    return ('lemmas',)
